@@ -114,6 +114,26 @@ def fstrings_to_format(tree):
     return n_done
 
 
+def empty_displays(tree):
+    """`dict()` -> `{}`, `list()` -> `[]`, `tuple()` -> `()`, `bytes()` -> b"" (argument-less constructor calls of builtins)"""
+    n_done = 0
+
+    class T(ast.NodeTransformer):
+        def visit_Call(self, n):
+            nonlocal n_done
+            self.generic_visit(n)
+            if isinstance(n.func, ast.Name) and not n.args and not n.keywords:
+                new = {"dict": lambda: ast.Dict(keys=[], values=[]), "list": lambda: ast.List(elts=[], ctx=ast.Load()),
+                       "tuple": lambda: ast.Tuple(elts=[], ctx=ast.Load()), "bytes": lambda: ast.Constant(value=b""), "str": lambda: ast.Constant(value="")}.get(n.func.id)
+                if new is not None:
+                    n_done += 1
+                    return ast.copy_location(new(), n)
+            return n
+
+    T().visit(tree)
+    return n_done
+
+
 def merge_nested_ifs(tree):
     """`if a: (only statement) if b: X`, neither with an else -> `if a and b: X` (innermost first)."""
     n_done = 0
@@ -1076,4 +1096,62 @@ def orient_tests(fn, ref_tests):
                 break
         if not changed:
             break
+    return n_done
+
+
+def method_value_to_closure(module, known):
+    """A method the reference does not know, never called directly and referenced only as a value (`self.m` handed to
+    another function) from one single method of the same class, is the extracted form of a nested function: it is
+    moved back into that method (its `self` is the enclosing method's `self`)."""
+    if known is None:
+        return 0
+    known = set(known)
+    n_done = 0
+    for cq, cls in list(module.classes.items()):
+        for st in list(cls.body):
+            if not isinstance(st, ast.FunctionDef) or st.decorator_list:
+                continue
+            q = cq + "." + st.name
+            if q in known or (st.name.startswith("__") and st.name.endswith("__")):
+                continue
+            a = st.args
+            if not a.args or a.args[0].arg != "self" or a.posonlyargs:
+                continue
+            # every reference in the module
+            refs = []
+            bad = False
+            for holder_q, holder in module.funcs.items():
+                if holder is st or holder_q.startswith(q + "."):
+                    continue
+                for n in ast.walk(holder):
+                    if isinstance(n, ast.Call) and isinstance(n.func, ast.Attribute) and n.func.attr == st.name:
+                        bad = True
+                    if isinstance(n, ast.Attribute) and n.attr == st.name:
+                        if isinstance(n.value, ast.Name) and n.value.id == "self" and isinstance(n.ctx, ast.Load):
+                            refs.append((holder_q, holder, n))
+                        else:
+                            bad = True
+                    if isinstance(n, ast.Name) and n.id == st.name:
+                        bad = True
+            holders = {hq for hq, _, _ in refs}
+            if bad or len(holders) != 1:
+                continue
+            hq, holder, _ = refs[0]
+            if not hq.startswith(cq + ".") or hq.count(".") != cq.count(".") + 1 or not holder.args.args or holder.args.args[0].arg != "self":
+                continue
+            if any(isinstance(n, ast.Name) and n.id == "self" and isinstance(n.ctx, ast.Store) for n in ast.walk(st)):
+                continue
+
+            class R(ast.NodeTransformer):
+                def visit_Attribute(self, n):
+                    self.generic_visit(n)
+                    if n.attr == st.name and isinstance(n.value, ast.Name) and n.value.id == "self":
+                        return ast.copy_location(ast.Name(id=st.name, ctx=ast.Load()), n)
+                    return n
+            R().visit(holder)
+            cls.body.remove(st)
+            st.args.args = st.args.args[1:]
+            pos = 1 if holder.body and isinstance(holder.body[0], ast.Expr) and isinstance(holder.body[0].value, ast.Constant) and isinstance(holder.body[0].value.value, str) else 0
+            holder.body.insert(pos, st)
+            n_done += 1
     return n_done
